@@ -59,4 +59,17 @@ TEXT = {
                  "shadow's own coordinates. Hundreds of thousands of refiner operations per quick run. Termination is only sampled.",
         "note": "Trusted: the shadow replay in the harness and hook H4 (3 added lines in local_mesh_refiner.cpp). Liveness is decided as 'returned within the watchdog on every generated input'.",
     },
+    "C16": {
+        "technique": "rapidcheck property-based testing; round-trip oracle (writer -> simulator's reader) plus an independent strict VTK-legacy parser for the declared counts",
+        "level": "Every generated population is written through one of the three writer entry points, checked by an independent parser "
+                 "(POINTS/CELLS/CELL_TYPES/CELL_DATA/FIELD counts against contents), read back by the simulator's reader and compared "
+                 "cell by cell: counts, types, every triangle, every coordinate (exactly, against the %.4e rendering). Exploration.",
+        "note": "Trusted: vtkparse.hpp. The second hop (output used as input of another run) is exercised by the pipeline engine of C10.",
+    },
+    "C18": {
+        "technique": "rapidcheck property-based testing; round-trip against strtod of the written text, single-fault mutations (omitted / sign-violating / boundary tags)",
+        "level": "Each of the ~30 tags is compared bit-exactly with the number written, with pairwise distinct values so that a swapped "
+                 "wiring is visible; every tag is omitted and every announced constraint violated many times per run. Exploration.",
+        "note": "Trusted: the harness's tag-to-field table (written from the documentation of the parameter file). Malformed text is C17's subject.",
+    },
 }
